@@ -25,6 +25,9 @@ def run(ctx: Ctx, chk) -> None:
     chk.run_rule(task_esc, ctx)
     chk.run_rule(eea_mqtt, ctx)
     chk.run_rule(prefix_identity, ctx)
+    from . import tables as _tables
+
+    chk.run_rule(_tables.write_sync_rule, ctx)
     rule = "LIFE-1"
     chk.rule(rule, "a task that is cancelled and then awaited does not re-raise CancelledError into the awaiter (protected await, or a body that absorbs cancellation at every suspension point)")
     mc = ctx.cls(MC)
